@@ -134,11 +134,49 @@ type l1World struct {
 
 var l1Seq int
 
+// l1Deploy is the deployment of the next world built by newL1World (consumed by it): the default
+// is one server instance with process-local locks.
+var l1Deploy cluster.Options
+
+// drawDeployment draws the deployment of the case: mostly one server instance with local locks,
+// sometimes one instance with the Redis (redsync) lock, sometimes two instances on one database,
+// broker and Redis whose requests alternate between them (a multi-server deployment: nothing may
+// depend on state kept inside one server process). It returns a label.
+func drawDeployment(rt *rapid.T) string {
+	switch rapid.IntRange(0, 5).Draw(rt, "deployment") {
+	case 4:
+		l1Deploy = cluster.Options{Redis: true}
+		return "deployment=one-instance+redis-lock"
+	case 5:
+		l1Deploy = cluster.Options{Redis: true, Instances: 2}
+		return "deployment=two-instances+redis-lock"
+	}
+	l1Deploy = cluster.Options{}
+	return "deployment=one-instance+local-lock"
+}
+
+const deploymentNote = "deployment drawn per case: 4 of 6 one server instance with process-local locks, 1 of 6 one instance with the Redis (redsync) lock on a RESP stand-in, 1 of 6 two server instances (own MongoDB/MQTT/Redis clients each) on the same database, broker and Redis, consecutive requests alternating between them"
+
+// infraProblem reports a use of the fakes that they do not implement (the run is inconclusive then).
+func (w *l1World) infraProblem() error {
+	if u := w.env.Mongo.UnknownCommands(); len(u) > 0 {
+		return fmt.Errorf("HARNESS-ERROR: MongoDB commands the fake does not implement: %v", u)
+	}
+	if w.env.Redis != nil {
+		if u := w.env.Redis.UnknownCommands(); len(u) > 0 {
+			return fmt.Errorf("HARNESS-ERROR: Redis commands the fake does not implement: %v", u)
+		}
+	}
+	return nil
+}
+
 func newL1World(idseed uint64, kinds []sim.Kind) (*l1World, error) {
 	sim.SeedIDs(idseed)
 	knownCUIDs = map[string]bool{}
 	patchesHappened = false
-	env, err := cluster.New(cluster.Options{})
+	opts := l1Deploy
+	l1Deploy = cluster.Options{}
+	env, err := cluster.New(opts)
 	if err != nil {
 		return nil, err
 	}
@@ -558,6 +596,16 @@ func (w *l1World) checkConverged() error {
 			return fmt.Errorf("key %s: the stored log is not a causal history: %v", k.Name, st.Ignored)
 		}
 		want := sim.Canon(st.JSON())
+		// every read and the size, not only the JSON view: a fresh instance that replays the stored log is
+		// the reference for those (the JSON view is compared with the reference model above it)
+		replay, err := replayInstance(k, ops)
+		if err != nil {
+			return err
+		}
+		full := sim.Observe(k.Kind, replay, l1ReadKeys)
+		if full.JSON != want {
+			return fmt.Errorf("key %s: a fresh instance that replays the stored log differs from the state defined by its operations:\n  replay: %s\n  model:  %s", k.Name, full.JSON, want)
+		}
 		for _, c := range w.clients {
 			d := c.dts[k.Name]
 			if d == nil || !d.entered {
@@ -565,6 +613,9 @@ func (w *l1World) checkConverged() error {
 			}
 			if got := sim.Canon(d.dt.(orda.Datatype).ToJSON()); got != want {
 				return fmt.Errorf("key %s: client %d differs from the state defined by the stored log after everybody synced:\n  client: %s\n  log:    %s", k.Name, c.idx, got, want)
+			}
+			if got := sim.Observe(k.Kind, d.dt, l1ReadKeys); got != full {
+				return fmt.Errorf("key %s: client %d has the JSON view of the stored log but its size or element reads differ from a replay of the log:\n  client: %s\n  replay: %s", k.Name, c.idx, got, full)
 			}
 		}
 		srv, _, err := w.serverCopy(k)
@@ -574,8 +625,33 @@ func (w *l1World) checkConverged() error {
 		if got := sim.Canon(srv.(orda.Datatype).ToJSON()); got != want {
 			return fmt.Errorf("key %s: the state the server rebuilds differs from the stored log:\n  server: %s\n  log:    %s", k.Name, got, want)
 		}
+		if got := sim.Observe(k.Kind, srv, l1ReadKeys); got != full {
+			return fmt.Errorf("key %s: the state the server rebuilds has the JSON view of the stored log but its size or element reads differ from a replay of the log:\n  server: %s\n  replay: %s", k.Name, got, full)
+		}
 	}
 	return nil
+}
+
+// l1ReadKeys are the keys whose reads are compared (every key the generators use).
+var l1ReadKeys = append(append([]string{}, keyPoolPlain...), keyPoolHostile...)
+
+// replayInstance feeds operations (a causal log prefix) to a fresh instance, as a new subscriber
+// or the server's rebuild without any snapshot would.
+func replayInstance(k *l1Key, ops []*model.Operation) (iface.Datatype, error) {
+	_, fresh := (&sim.World{Kind: k.Kind, Key: k.Name}).NewInstance("replay", false)
+	var perr interface{}
+	var derr error
+	func() {
+		defer func() { perr = recover() }()
+		_, e := fresh.ReceiveRemoteModelOperations(cloneOps(ops, 0), false)
+		if e != nil {
+			derr = e
+		}
+	}()
+	if perr != nil || derr != nil {
+		return nil, fmt.Errorf("key %s: a fresh instance cannot replay the stored log: error=%v panic=%v", k.Name, derr, perr)
+	}
+	return fresh, nil
 }
 
 // checkCheckpoints: a client's checkpoint never moves backwards.
